@@ -395,9 +395,12 @@ struct Sacl { int nitems; int *ivalue; double *dvalue; int tag; };
 typedef struct Sacl Sacl;
 struct Spt { int i; double d; };
 typedef struct Spt Spt;
+struct Smp { double *vals; int count; double scale; };
+typedef struct Smp Smp;
 #ifdef __cplusplus
 extern "C" {
 #endif
+double smp_sum(const Smp *s);
 int spt_in(const Spt *s);
 int spt_bump(Spt *s, int by);
 void spt_touch(Spt *s);
@@ -418,6 +421,7 @@ Sacl *sacl_global(void) { static int once = 0; if (!once) { sacl_refill(1); once
 void sacl_refill(int base) { int i; for (i = 0; i < 8; i++) { iv[i] = base + i; dv[i] = base * 0.5 + i; } }
 void sacl_resize(int n) { g.nitems = n; }
 int sacl_sum(void) { int i, s = g.tag; for (i = 0; i < g.nitems; i++) s += iv[i]; return s; }
+double smp_sum(const Smp *s) { int i; double t = 0; for (i = 0; i < s->count; i++) t += s->vals[i]; return t * s->scale; }
 int spt_in(const Spt *s) { return s->i * 2; }
 int spt_bump(Spt *s, int by) { s->i += by; s->d += 0.5; return s->i; }
 void spt_touch(Spt *s) { s->i += 1; }
@@ -464,6 +468,15 @@ r = m.spt_bump(p, 1)
 out(10, [r[0] if isinstance(r, tuple) else r, p.i, q.i, p is q])
 w = m.spt_make(5)
 out(11, [w.i, w.d, sys.getrefcount(w) - sys.getrefcount(q)])
+# constructor of a struct whose first member is an array: positional arguments follow the member order (docs/struct.rst)
+def ctor(*a, **k):
+    try:
+        o = m.Smp(*a, **k)
+        return [o.count, o.scale, m.smp_sum(o)]
+    except Exception as e:
+        return type(e).__name__
+out(12, [ctor([1.0, 2.0, 3.0], 3, 2.5), ctor([4.0, 5.0], count=2, scale=0.5), ctor(vals=[1.0], count=1, scale=2.0), ctor(scale=2.0, count=1, vals=[3.0])])
+out(13, [ctor(3, [1.0], 2.5), ctor("x", 1, 1.0)])
 """
 
 
@@ -472,7 +485,8 @@ def sacl_expected():
     dv = lambda b: [b * 0.5 + i for i in range(8)]
     return {0: [4, iv(1)[:4], dv(1)[:4], 7], 1: [iv(10)[:4], dv(10)[:4]], 2: [2, iv(10)[:2]], 3: [iv(10)[:3], 7 + sum(iv(10)[:3])],
             4: [iv(10)[:3]], 5: [100 + sum(iv(10)[:3]), 100], 6: [iv(20)[:3], iv(20)[:3]],
-            7: [0, 6], 8: [0, 46, 27.0], 9: [0, 86], 10: [87, 87, 100, False], 11: [5, 1.25, 0]}
+            7: [0, 6], 8: [0, 46, 27.0], 9: [0, 86], 10: [87, 87, 100, False], 11: [5, 1.25, 0],
+            12: [[3, 2.5, 15.0], [2, 0.5, 4.5], [1, 2.0, 2.0], [1, 2.0, 6.0]], 13: ["TypeError", "TypeError"]}
 
 
 def run_struct_class(case):
@@ -488,7 +502,8 @@ def run_struct_class(case):
                           {"decl": "int sacl_sum(void)"},
                           {"decl": "struct Spt { int i; double d; };"},
                           {"decl": "int spt_in(const Spt *s)"}, {"decl": "int spt_bump(Spt *s +intent(inout), int by)"},
-                          {"decl": "void spt_touch(Spt *s +intent(inout))"}, {"decl": "void spt_make(Spt *s +intent(out), int tag)"}]}
+                          {"decl": "void spt_touch(Spt *s +intent(inout))"}, {"decl": "void spt_make(Spt *s +intent(out), int tag)"},
+                          {"decl": "struct Smp { double *vals +dimension(count); int count; double scale; };"}, {"decl": "double smp_sum(const Smp *s)"}]}
     sp = {"name": "sacl", "files": {"work/sacl.yaml": workloads.dump_yaml(y)}, "dirs": ["out"], "argv": ["--outdir", "out", "--logdir", "out", "work/sacl.yaml"],
           "monitors": [], "keep": True}
     rr = shroudrun.run(sp)
@@ -533,7 +548,7 @@ def run_struct_class(case):
                 3: "read after the caller changed the extent member", 4: "read after a returned list was modified", 5: "scalar member set",
                 6: "two objects for the same struct", 7: "reference count after intent(in) calls", 8: "reference count after intent(inout) calls that also return a value",
                 9: "reference count after intent(inout) calls returning only the struct", 10: "struct object still the caller's after results were dropped",
-                11: "intent(out) struct"}
+                11: "intent(out) struct", 12: "constructor arguments in member order (positional, mixed, keyword)", 13: "constructor with wrongly typed arguments"}
         for k, want in exp.items():
             res["stats"]["struct_class_steps"] = res["stats"].get("struct_class_steps", 0) + 1
             if k not in outs:
